@@ -83,6 +83,7 @@ def common_ensures(c):
     R = h1.set_of(c.res.t)
     return [
         ('result_is_sat', z3.ForAll([s], R[s] == sat(f)[s])),
+        ('result_only_states', z3.ForAll([s], z3.Implies(R[s], V(h0, c.kripke.t)[s]))),
         ('result_valid', z3.And(c.res.t >= 0, c.res.t < h1.alloc)),
         ('result_in_memo_or_fresh', z3.Or(Rng(h1, L)[c.res.t], c.res.t >= h0.alloc)),
         ('memo_inv', memo_inv(h1, L)),
@@ -453,6 +454,39 @@ def install(E):
         raises={'TypeError': lambda c: z3.Not(is_tag(c.formula.t, *STATE_TAGS))},
         touches={'sets', 'fd', 'fv'}, hints={'dict_kind_default': 'fdict'}, owner='C01',
         note='object formulas, F=None; the text/parser leg and the fairness leg are bounded only'))
+
+    # -- modelcheck with fairness constraints: FRAME and SAFETY only (C07/C15/C19) --------------------
+    # (what it returns is decided by the bounded check: the fair-state label is wrong on the pinned
+    #  tree, KF-C15-1, and the reduction itself is unsound, KF-C15-2)
+    def mcf_requires(c):
+        h0, k, f = c.h0, c.kripke.t, c.formula.t
+        r = z3.Int('r!mf')
+        g = z3.Const('g!mf', F)
+        lb = X('l')
+        out = [('kripke_wf', wfK(h0, k)),
+               ('no_None_state', z3.Not(V(h0, k)[hp.NONE_H])),
+               ('constraints_are_sets', z3.ForAll([r], z3.Implies(c.F.x.mem[r], z3.And(r >= 0, r < h0.alloc)))),
+               ('objects_of_state_classes_are_wf', z3.Implies(is_tag(f, *STATE_TAGS), wfS(f)))]
+        if c.side == 'callee':
+            # the fairness rewriting returns a documented CTL state formula (C08/C15, bounded)
+            out.append(('memo_range_definition', z3.And(rng_axioms())))
+            out.append(('non_fair_rewriting_keeps_grammar',
+                        z3.ForAll([g, lb], z3.Implies(wfS(g), wfS(fm.nonfair(g, lb))), patterns=[fm.nonfair(g, lb)])))
+        return out
+
+    def mcf_ensures(c):
+        s = X('s')
+        R = c.h1.set_of(c.res.t)
+        return [('only_states', z3.ForAll([s], z3.Implies(R[s], V(c.h0, c.kripke.t)[s]))),
+                ('result_is_fresh', z3.And(c.res.t >= c.h0.alloc, c.res.t < c.h1.alloc))]
+
+    reg(Contract(
+        'CTL.modelcheck(fair)', 'ctl', [('kripke', 'kripke'), ('formula', 'F'), ('parser', 'none'), ('F', 'iterRefSets')], ret='set',
+        requires=mcf_requires, ensures=mcf_ensures,
+        raises={'TypeError': lambda c: z3.Not(is_tag(c.formula.t, *STATE_TAGS))},
+        touches={'sets', 'fd', 'fv', 'dd', 'dv', 'rels', 'fld__next', 'fld__labels', 'fld_S0'},
+        hints={'dict_kind_default': 'fdict', 'path': 'modelcheck'}, owner='C15',
+        note='object formula, F = a container of sets: frame and safety only'))
 
     # -- _checkEG ---------------------------------------------------------------------------------
     # The code builds G' = reversed( K restricted to phi-states ), takes the components of G' that
